@@ -54,8 +54,14 @@ func describe(ref *graphref.Ref) []string {
 	return out
 }
 
-func prop(t *rapid.T) {
-	sc := dagen.GenScenario(t, 2, dagen.Params{MinEvents: 30, MaxEvents: 130, Forks: dagen.MinorityFork, NonMaxFrames: true})
+func prop(t *rapid.T) { propWith(t, "") }
+
+// propShapes: the same property on the rare large shapes (65-70 validators with marginal quorums and forkers at the
+// end of the validators order, one block confirming 700-1200 events, 66-70 same-sequence events of one validator).
+func propShapes(t *rapid.T) { propWith(t, dagen.DrawShape(t, "many_validators")) }
+
+func propWith(t *rapid.T, shape string) {
+	sc := dagen.GenScenario(t, 2, dagen.Params{MinEvents: 30, MaxEvents: 130, Forks: dagen.MinorityFork, NonMaxFrames: true, Shape: shape})
 	cfgs := cons.Configs()
 	cfg := cfgs[rapid.IntRange(0, len(cfgs)-1).Draw(t, "cacheConfig")]
 	withBuild := rapid.Bool().Draw(t, "buildBeforeProcess")
@@ -146,6 +152,9 @@ func prop(t *rapid.T) {
 	if withBuild {
 		classes = append(classes, "build_checked")
 	}
+	if sh := sc.Epochs[0].Info.Shape; sh != "" {
+		classes = append(classes, "shape_"+sh)
+	}
 	st.Case(stats.Hash(describe(sc.Epochs[0].Ref), len(sc.Epochs)), nontrivial, classes...)
 	st.Class("blocks", int64(totalBlocks))
 	st.Sample(func() interface{} {
@@ -155,3 +164,5 @@ func prop(t *rapid.T) {
 }
 
 func TestC10Reference(t *testing.T) { rapid.Check(t, prop) }
+
+func TestC10Shapes(t *testing.T) { rapid.Check(t, propShapes) }
